@@ -115,7 +115,7 @@ class PortCode:
         return (prov and ev.direction == 'in') or (not prov and ev.direction == 'out')
 
 
-def gen_driver(facts, cfg):
+def gen_driver(facts, cfg, include_source=True):
     sns = support_ns(cfg)
     shell_t = '::' + '::'.join(list(facts.scope) + [facts.base + cfg.get('suffix', 'Shell')])
     comp_t = '::' + '::'.join(facts.enc.fqn)
@@ -126,7 +126,7 @@ def gen_driver(facts, cfg):
     mcport = mcport[0] if mcport else None
     out = []
     w = out.append
-    w(f'#include "{facts.base}{cfg.get("suffix", "Shell")}.cc"')
+    w(f'#include "{facts.base}{cfg.get("suffix", "Shell")}.{"cc" if include_source else "hh"}"')
     w('#include "verif_probe.hh"')
     w('#include <type_traits>\n#include <memory>\n#include <set>\n#include <deque>\n#include <sstream>')
     w(f'using Shell = {shell_t}; using Comp = {comp_t};')
@@ -510,11 +510,14 @@ def reorder_pairs(stderr):
     return out
 
 
-def run_sources(src, env_extra=None, timeout=600, main='driver.cc', extra_flags=(), sanitize=True):
-    """Compile + run one case; cached on the hash of everything that determines the result.
+def run_sources(src, env_extra=None, timeout=600, main='driver.cc', extra_flags=(), sanitize=True,
+                syntax_only=False, compiler=None):
+    """Compile (+ link + run) one case; cached on the hash of everything that determines the result.
+    `main` may be a list of translation units that are compiled separately and linked.
     Returns {'compiled': bool, 'compile_error': str, 'exit': int, 'lines': [...], 'stderr': str}"""
-    key = hashlib.sha256(json.dumps([src, env_extra, main, list(extra_flags), sanitize, _toolchain_id()],
-                                    sort_keys=True).encode()).hexdigest()
+    compiler = compiler or CXX
+    key = hashlib.sha256(json.dumps([src, env_extra, main, list(extra_flags), sanitize, syntax_only, compiler,
+                                     _toolchain_id()], sort_keys=True).encode()).hexdigest()
     os.makedirs(CACHE_DIR, exist_ok=True)
     cpath = os.path.join(CACHE_DIR, key + '.json')
     if os.path.exists(cpath) and not os.environ.get('VF_NOCACHE'):
@@ -529,16 +532,19 @@ def run_sources(src, env_extra=None, timeout=600, main='driver.cc', extra_flags=
             with open(os.path.join(tmp, name), 'w', encoding='utf-8') as fh:
                 fh.write(text)
         exe = os.path.join(tmp, 'a.out')
-        cmd = [CXX] + BASE_FLAGS + (SAN_FLAGS if sanitize else []) + list(extra_flags) + \
-              ['-I', MOCK_DIR, '-I', CXX_DIR, '-I', tmp, os.path.join(tmp, main), '-o', exe]
+        mains = [main] if isinstance(main, str) else list(main)
+        cmd = [compiler] + BASE_FLAGS + (SAN_FLAGS if sanitize and not syntax_only else []) + list(extra_flags) + \
+              ['-I', MOCK_DIR, '-I', CXX_DIR, '-I', tmp] + [os.path.join(tmp, m) for m in mains] + \
+              (['-fsyntax-only'] if syntax_only else ['-o', exe])
         comp = subprocess.run(cmd, capture_output=True, text=True, timeout=timeout, check=False)
         result = {'compiled': comp.returncode == 0, 'compile_error': '', 'exit': None, 'lines': [], 'stderr': '',
                   'warnings': [ln for ln in comp.stderr.splitlines() if 'warning:' in ln][:10],
                   'reorder': reorder_pairs(comp.stderr)}
         if comp.returncode != 0:
-            errs = [ln.replace(tmp + '/', '') for ln in comp.stderr.splitlines() if 'error' in ln]
+            errs = [ln.replace(tmp + '/', '') for ln in comp.stderr.splitlines()
+                    if 'error' in ln or 'undefined reference' in ln or 'multiple definition' in ln]
             result['compile_error'] = '\n'.join(errs[:6]) or comp.stderr[-600:]
-        else:
+        elif not syntax_only:
             env = dict(os.environ)
             env.update(RUN_ENV)
             env.update(env_extra or {})
